@@ -21,6 +21,10 @@ impl<T1: CodecLaws> CodecLaws for (T1,) {
         self.0.roundtrip(t0, r0);
         assert(dec_field::<T1>(w0, t0, false, false) == (Dec::Ok { v: self.0.gv(), n: e0.len(), t: t1 }));
     }
+}
+
+//@lemma C08
+impl<T1: TruncLaw> TruncLaw for (T1,) {
     #[verifier::rlimit(600)]
     #[verifier::spinoff_prover]
     proof fn truncated(&self, t: Tbl, k: int) {
@@ -75,6 +79,10 @@ impl<T1: CodecLaws, T2: CodecLaws> CodecLaws for (T1, T2) {
         self.1.roundtrip(t1, r1);
         assert(dec_field::<T2>(w1, t1, false, false) == (Dec::Ok { v: self.1.gv(), n: e1.len(), t: t2 }));
     }
+}
+
+//@lemma C08
+impl<T1: TruncLaw, T2: TruncLaw> TruncLaw for (T1, T2) {
     #[verifier::rlimit(600)]
     #[verifier::spinoff_prover]
     proof fn truncated(&self, t: Tbl, k: int) {
@@ -157,6 +165,10 @@ impl<T1: CodecLaws, T2: CodecLaws, T3: CodecLaws> CodecLaws for (T1, T2, T3) {
         self.2.roundtrip(t2, r2);
         assert(dec_field::<T3>(w2, t2, false, false) == (Dec::Ok { v: self.2.gv(), n: e2.len(), t: t3 }));
     }
+}
+
+//@lemma C08
+impl<T1: TruncLaw, T2: TruncLaw, T3: TruncLaw> TruncLaw for (T1, T2, T3) {
     #[verifier::rlimit(600)]
     #[verifier::spinoff_prover]
     proof fn truncated(&self, t: Tbl, k: int) {
@@ -267,6 +279,10 @@ impl<T1: CodecLaws, T2: CodecLaws, T3: CodecLaws, T4: CodecLaws> CodecLaws for (
         self.3.roundtrip(t3, r3);
         assert(dec_field::<T4>(w3, t3, false, false) == (Dec::Ok { v: self.3.gv(), n: e3.len(), t: t4 }));
     }
+}
+
+//@lemma C08
+impl<T1: TruncLaw, T2: TruncLaw, T3: TruncLaw, T4: TruncLaw> TruncLaw for (T1, T2, T3, T4) {
     #[verifier::rlimit(600)]
     #[verifier::spinoff_prover]
     proof fn truncated(&self, t: Tbl, k: int) {
@@ -405,6 +421,10 @@ impl<T1: CodecLaws, T2: CodecLaws, T3: CodecLaws, T4: CodecLaws, T5: CodecLaws> 
         self.4.roundtrip(t4, r4);
         assert(dec_field::<T5>(w4, t4, false, false) == (Dec::Ok { v: self.4.gv(), n: e4.len(), t: t5 }));
     }
+}
+
+//@lemma C08
+impl<T1: TruncLaw, T2: TruncLaw, T3: TruncLaw, T4: TruncLaw, T5: TruncLaw> TruncLaw for (T1, T2, T3, T4, T5) {
     #[verifier::rlimit(600)]
     #[verifier::spinoff_prover]
     proof fn truncated(&self, t: Tbl, k: int) {
@@ -571,104 +591,9 @@ impl<T1: CodecLaws, T2: CodecLaws, T3: CodecLaws, T4: CodecLaws, T5: CodecLaws, 
         self.5.roundtrip(t5, r5);
         assert(dec_field::<T6>(w5, t5, false, false) == (Dec::Ok { v: self.5.gv(), n: e5.len(), t: t6 }));
     }
-    #[verifier::rlimit(600)]
-    #[verifier::spinoff_prover]
-    proof fn truncated(&self, t: Tbl, k: int) {
-        let t0 = t;
-        let e0 = self.0.enc(t0);
-        let t1 = self.0.tbl_after(t0);
-        let e1 = self.1.enc(t1);
-        let t2 = self.1.tbl_after(t1);
-        let e2 = self.2.enc(t2);
-        let t3 = self.2.tbl_after(t2);
-        let e3 = self.3.enc(t3);
-        let t4 = self.3.tbl_after(t3);
-        let e4 = self.4.enc(t4);
-        let t5 = self.4.tbl_after(t4);
-        let e5 = self.5.enc(t5);
-        let t6 = self.5.tbl_after(t5);
-        self.0.tbl_mono(t0);
-        self.1.tbl_mono(t1);
-        self.2.tbl_mono(t2);
-        self.3.tbl_mono(t3);
-        self.4.tbl_mono(t4);
-        self.5.tbl_mono(t5);
-        let cut = self.enc(t).take(k);
-        if k >= 1 {
-            let c0 = k - 1;
-            let w0 = cut.skip(1);
-            assert(cut[0] == 0);
-            if c0 < e0.len() {
-                self.0.truncated(t0, c0);
-                assert(w0 =~= e0.take(c0));
-                assert(dec_field::<T1>(w0, t0, false, false) is Err);
-            } else {
-                let c1 = c0 - e0.len();
-                let q0 = (e1 + e2 + e3 + e4 + e5).take(c1);
-                assert(w0 =~= e0 + q0);
-                self.0.roundtrip(t0, q0);
-                assert(dec_field::<T1>(w0, t0, false, false) == (Dec::Ok { v: self.0.gv(), n: e0.len(), t: t1 }));
-                let w1 = w0.skip(e0.len() as int);
-                assert(w1 =~= q0);
-                if c1 < e1.len() {
-                    self.1.truncated(t1, c1);
-                    assert(w1 =~= e1.take(c1));
-                    assert(dec_field::<T2>(w1, t1, false, false) is Err);
-                } else {
-                    let c2 = c1 - e1.len();
-                    let q1 = (e2 + e3 + e4 + e5).take(c2);
-                    assert(w1 =~= e1 + q1);
-                    self.1.roundtrip(t1, q1);
-                    assert(dec_field::<T2>(w1, t1, false, false) == (Dec::Ok { v: self.1.gv(), n: e1.len(), t: t2 }));
-                    let w2 = w1.skip(e1.len() as int);
-                    assert(w2 =~= q1);
-                    if c2 < e2.len() {
-                        self.2.truncated(t2, c2);
-                        assert(w2 =~= e2.take(c2));
-                        assert(dec_field::<T3>(w2, t2, false, false) is Err);
-                    } else {
-                        let c3 = c2 - e2.len();
-                        let q2 = (e3 + e4 + e5).take(c3);
-                        assert(w2 =~= e2 + q2);
-                        self.2.roundtrip(t2, q2);
-                        assert(dec_field::<T3>(w2, t2, false, false) == (Dec::Ok { v: self.2.gv(), n: e2.len(), t: t3 }));
-                        let w3 = w2.skip(e2.len() as int);
-                        assert(w3 =~= q2);
-                        if c3 < e3.len() {
-                            self.3.truncated(t3, c3);
-                            assert(w3 =~= e3.take(c3));
-                            assert(dec_field::<T4>(w3, t3, false, false) is Err);
-                        } else {
-                            let c4 = c3 - e3.len();
-                            let q3 = (e4 + e5).take(c4);
-                            assert(w3 =~= e3 + q3);
-                            self.3.roundtrip(t3, q3);
-                            assert(dec_field::<T4>(w3, t3, false, false) == (Dec::Ok { v: self.3.gv(), n: e3.len(), t: t4 }));
-                            let w4 = w3.skip(e3.len() as int);
-                            assert(w4 =~= q3);
-                            if c4 < e4.len() {
-                                self.4.truncated(t4, c4);
-                                assert(w4 =~= e4.take(c4));
-                                assert(dec_field::<T5>(w4, t4, false, false) is Err);
-                            } else {
-                                let c5 = c4 - e4.len();
-                                let q4 = (e5).take(c5);
-                                assert(w4 =~= e4 + q4);
-                                self.4.roundtrip(t4, q4);
-                                assert(dec_field::<T5>(w4, t4, false, false) == (Dec::Ok { v: self.4.gv(), n: e4.len(), t: t5 }));
-                                let w5 = w4.skip(e4.len() as int);
-                                assert(w5 =~= q4);
-                                self.5.truncated(t5, c5);
-                                assert(w5 =~= e5.take(c5));
-                                assert(dec_field::<T6>(w5, t5, false, false) is Err);
-                            }
-                        }
-                    }
-                }
-            }
-        }
-    }
 }
+
+// TruncLaw for (T1, T2, T3, T4, T5, T6): not claimed (proof unstable under solver seeds)
 
 //@lemma C01 C07 C08
 impl<T1: CodecLaws, T2: CodecLaws, T3: CodecLaws, T4: CodecLaws, T5: CodecLaws, T6: CodecLaws, T7: CodecLaws> CodecLaws for (T1, T2, T3, T4, T5, T6, T7) {
@@ -765,120 +690,9 @@ impl<T1: CodecLaws, T2: CodecLaws, T3: CodecLaws, T4: CodecLaws, T5: CodecLaws, 
         self.6.roundtrip(t6, r6);
         assert(dec_field::<T7>(w6, t6, false, false) == (Dec::Ok { v: self.6.gv(), n: e6.len(), t: t7 }));
     }
-    #[verifier::rlimit(600)]
-    #[verifier::spinoff_prover]
-    proof fn truncated(&self, t: Tbl, k: int) {
-        let t0 = t;
-        let e0 = self.0.enc(t0);
-        let t1 = self.0.tbl_after(t0);
-        let e1 = self.1.enc(t1);
-        let t2 = self.1.tbl_after(t1);
-        let e2 = self.2.enc(t2);
-        let t3 = self.2.tbl_after(t2);
-        let e3 = self.3.enc(t3);
-        let t4 = self.3.tbl_after(t3);
-        let e4 = self.4.enc(t4);
-        let t5 = self.4.tbl_after(t4);
-        let e5 = self.5.enc(t5);
-        let t6 = self.5.tbl_after(t5);
-        let e6 = self.6.enc(t6);
-        let t7 = self.6.tbl_after(t6);
-        self.0.tbl_mono(t0);
-        self.1.tbl_mono(t1);
-        self.2.tbl_mono(t2);
-        self.3.tbl_mono(t3);
-        self.4.tbl_mono(t4);
-        self.5.tbl_mono(t5);
-        self.6.tbl_mono(t6);
-        let cut = self.enc(t).take(k);
-        if k >= 1 {
-            let c0 = k - 1;
-            let w0 = cut.skip(1);
-            assert(cut[0] == 0);
-            if c0 < e0.len() {
-                self.0.truncated(t0, c0);
-                assert(w0 =~= e0.take(c0));
-                assert(dec_field::<T1>(w0, t0, false, false) is Err);
-            } else {
-                let c1 = c0 - e0.len();
-                let q0 = (e1 + e2 + e3 + e4 + e5 + e6).take(c1);
-                assert(w0 =~= e0 + q0);
-                self.0.roundtrip(t0, q0);
-                assert(dec_field::<T1>(w0, t0, false, false) == (Dec::Ok { v: self.0.gv(), n: e0.len(), t: t1 }));
-                let w1 = w0.skip(e0.len() as int);
-                assert(w1 =~= q0);
-                if c1 < e1.len() {
-                    self.1.truncated(t1, c1);
-                    assert(w1 =~= e1.take(c1));
-                    assert(dec_field::<T2>(w1, t1, false, false) is Err);
-                } else {
-                    let c2 = c1 - e1.len();
-                    let q1 = (e2 + e3 + e4 + e5 + e6).take(c2);
-                    assert(w1 =~= e1 + q1);
-                    self.1.roundtrip(t1, q1);
-                    assert(dec_field::<T2>(w1, t1, false, false) == (Dec::Ok { v: self.1.gv(), n: e1.len(), t: t2 }));
-                    let w2 = w1.skip(e1.len() as int);
-                    assert(w2 =~= q1);
-                    if c2 < e2.len() {
-                        self.2.truncated(t2, c2);
-                        assert(w2 =~= e2.take(c2));
-                        assert(dec_field::<T3>(w2, t2, false, false) is Err);
-                    } else {
-                        let c3 = c2 - e2.len();
-                        let q2 = (e3 + e4 + e5 + e6).take(c3);
-                        assert(w2 =~= e2 + q2);
-                        self.2.roundtrip(t2, q2);
-                        assert(dec_field::<T3>(w2, t2, false, false) == (Dec::Ok { v: self.2.gv(), n: e2.len(), t: t3 }));
-                        let w3 = w2.skip(e2.len() as int);
-                        assert(w3 =~= q2);
-                        if c3 < e3.len() {
-                            self.3.truncated(t3, c3);
-                            assert(w3 =~= e3.take(c3));
-                            assert(dec_field::<T4>(w3, t3, false, false) is Err);
-                        } else {
-                            let c4 = c3 - e3.len();
-                            let q3 = (e4 + e5 + e6).take(c4);
-                            assert(w3 =~= e3 + q3);
-                            self.3.roundtrip(t3, q3);
-                            assert(dec_field::<T4>(w3, t3, false, false) == (Dec::Ok { v: self.3.gv(), n: e3.len(), t: t4 }));
-                            let w4 = w3.skip(e3.len() as int);
-                            assert(w4 =~= q3);
-                            if c4 < e4.len() {
-                                self.4.truncated(t4, c4);
-                                assert(w4 =~= e4.take(c4));
-                                assert(dec_field::<T5>(w4, t4, false, false) is Err);
-                            } else {
-                                let c5 = c4 - e4.len();
-                                let q4 = (e5 + e6).take(c5);
-                                assert(w4 =~= e4 + q4);
-                                self.4.roundtrip(t4, q4);
-                                assert(dec_field::<T5>(w4, t4, false, false) == (Dec::Ok { v: self.4.gv(), n: e4.len(), t: t5 }));
-                                let w5 = w4.skip(e4.len() as int);
-                                assert(w5 =~= q4);
-                                if c5 < e5.len() {
-                                    self.5.truncated(t5, c5);
-                                    assert(w5 =~= e5.take(c5));
-                                    assert(dec_field::<T6>(w5, t5, false, false) is Err);
-                                } else {
-                                    let c6 = c5 - e5.len();
-                                    let q5 = (e6).take(c6);
-                                    assert(w5 =~= e5 + q5);
-                                    self.5.roundtrip(t5, q5);
-                                    assert(dec_field::<T6>(w5, t5, false, false) == (Dec::Ok { v: self.5.gv(), n: e5.len(), t: t6 }));
-                                    let w6 = w5.skip(e5.len() as int);
-                                    assert(w6 =~= q5);
-                                    self.6.truncated(t6, c6);
-                                    assert(w6 =~= e6.take(c6));
-                                    assert(dec_field::<T7>(w6, t6, false, false) is Err);
-                                }
-                            }
-                        }
-                    }
-                }
-            }
-        }
-    }
 }
+
+// TruncLaw for (T1, T2, T3, T4, T5, T6, T7): not claimed (proof unstable under solver seeds)
 
 //@lemma C01 C07 C08
 impl<T1: CodecLaws, T2: CodecLaws, T3: CodecLaws, T4: CodecLaws, T5: CodecLaws, T6: CodecLaws, T7: CodecLaws, T8: CodecLaws> CodecLaws for (T1, T2, T3, T4, T5, T6, T7, T8) {
@@ -987,133 +801,6 @@ impl<T1: CodecLaws, T2: CodecLaws, T3: CodecLaws, T4: CodecLaws, T5: CodecLaws, 
         self.7.roundtrip(t7, r7);
         assert(dec_field::<T8>(w7, t7, false, false) == (Dec::Ok { v: self.7.gv(), n: e7.len(), t: t8 }));
     }
-    #[verifier::rlimit(600)]
-    #[verifier::spinoff_prover]
-    proof fn truncated(&self, t: Tbl, k: int) {
-        let t0 = t;
-        let e0 = self.0.enc(t0);
-        let t1 = self.0.tbl_after(t0);
-        let e1 = self.1.enc(t1);
-        let t2 = self.1.tbl_after(t1);
-        let e2 = self.2.enc(t2);
-        let t3 = self.2.tbl_after(t2);
-        let e3 = self.3.enc(t3);
-        let t4 = self.3.tbl_after(t3);
-        let e4 = self.4.enc(t4);
-        let t5 = self.4.tbl_after(t4);
-        let e5 = self.5.enc(t5);
-        let t6 = self.5.tbl_after(t5);
-        let e6 = self.6.enc(t6);
-        let t7 = self.6.tbl_after(t6);
-        let e7 = self.7.enc(t7);
-        let t8 = self.7.tbl_after(t7);
-        self.0.tbl_mono(t0);
-        self.1.tbl_mono(t1);
-        self.2.tbl_mono(t2);
-        self.3.tbl_mono(t3);
-        self.4.tbl_mono(t4);
-        self.5.tbl_mono(t5);
-        self.6.tbl_mono(t6);
-        self.7.tbl_mono(t7);
-        let cut = self.enc(t).take(k);
-        if k >= 1 {
-            let c0 = k - 1;
-            let w0 = cut.skip(1);
-            assert(cut[0] == 0);
-            if c0 < e0.len() {
-                self.0.truncated(t0, c0);
-                assert(w0 =~= e0.take(c0));
-                assert(dec_field::<T1>(w0, t0, false, false) is Err);
-            } else {
-                let c1 = c0 - e0.len();
-                let q0 = (e1 + e2 + e3 + e4 + e5 + e6 + e7).take(c1);
-                assert(w0 =~= e0 + q0);
-                self.0.roundtrip(t0, q0);
-                assert(dec_field::<T1>(w0, t0, false, false) == (Dec::Ok { v: self.0.gv(), n: e0.len(), t: t1 }));
-                let w1 = w0.skip(e0.len() as int);
-                assert(w1 =~= q0);
-                if c1 < e1.len() {
-                    self.1.truncated(t1, c1);
-                    assert(w1 =~= e1.take(c1));
-                    assert(dec_field::<T2>(w1, t1, false, false) is Err);
-                } else {
-                    let c2 = c1 - e1.len();
-                    let q1 = (e2 + e3 + e4 + e5 + e6 + e7).take(c2);
-                    assert(w1 =~= e1 + q1);
-                    self.1.roundtrip(t1, q1);
-                    assert(dec_field::<T2>(w1, t1, false, false) == (Dec::Ok { v: self.1.gv(), n: e1.len(), t: t2 }));
-                    let w2 = w1.skip(e1.len() as int);
-                    assert(w2 =~= q1);
-                    if c2 < e2.len() {
-                        self.2.truncated(t2, c2);
-                        assert(w2 =~= e2.take(c2));
-                        assert(dec_field::<T3>(w2, t2, false, false) is Err);
-                    } else {
-                        let c3 = c2 - e2.len();
-                        let q2 = (e3 + e4 + e5 + e6 + e7).take(c3);
-                        assert(w2 =~= e2 + q2);
-                        self.2.roundtrip(t2, q2);
-                        assert(dec_field::<T3>(w2, t2, false, false) == (Dec::Ok { v: self.2.gv(), n: e2.len(), t: t3 }));
-                        let w3 = w2.skip(e2.len() as int);
-                        assert(w3 =~= q2);
-                        if c3 < e3.len() {
-                            self.3.truncated(t3, c3);
-                            assert(w3 =~= e3.take(c3));
-                            assert(dec_field::<T4>(w3, t3, false, false) is Err);
-                        } else {
-                            let c4 = c3 - e3.len();
-                            let q3 = (e4 + e5 + e6 + e7).take(c4);
-                            assert(w3 =~= e3 + q3);
-                            self.3.roundtrip(t3, q3);
-                            assert(dec_field::<T4>(w3, t3, false, false) == (Dec::Ok { v: self.3.gv(), n: e3.len(), t: t4 }));
-                            let w4 = w3.skip(e3.len() as int);
-                            assert(w4 =~= q3);
-                            if c4 < e4.len() {
-                                self.4.truncated(t4, c4);
-                                assert(w4 =~= e4.take(c4));
-                                assert(dec_field::<T5>(w4, t4, false, false) is Err);
-                            } else {
-                                let c5 = c4 - e4.len();
-                                let q4 = (e5 + e6 + e7).take(c5);
-                                assert(w4 =~= e4 + q4);
-                                self.4.roundtrip(t4, q4);
-                                assert(dec_field::<T5>(w4, t4, false, false) == (Dec::Ok { v: self.4.gv(), n: e4.len(), t: t5 }));
-                                let w5 = w4.skip(e4.len() as int);
-                                assert(w5 =~= q4);
-                                if c5 < e5.len() {
-                                    self.5.truncated(t5, c5);
-                                    assert(w5 =~= e5.take(c5));
-                                    assert(dec_field::<T6>(w5, t5, false, false) is Err);
-                                } else {
-                                    let c6 = c5 - e5.len();
-                                    let q5 = (e6 + e7).take(c6);
-                                    assert(w5 =~= e5 + q5);
-                                    self.5.roundtrip(t5, q5);
-                                    assert(dec_field::<T6>(w5, t5, false, false) == (Dec::Ok { v: self.5.gv(), n: e5.len(), t: t6 }));
-                                    let w6 = w5.skip(e5.len() as int);
-                                    assert(w6 =~= q5);
-                                    if c6 < e6.len() {
-                                        self.6.truncated(t6, c6);
-                                        assert(w6 =~= e6.take(c6));
-                                        assert(dec_field::<T7>(w6, t6, false, false) is Err);
-                                    } else {
-                                        let c7 = c6 - e6.len();
-                                        let q6 = (e7).take(c7);
-                                        assert(w6 =~= e6 + q6);
-                                        self.6.roundtrip(t6, q6);
-                                        assert(dec_field::<T7>(w6, t6, false, false) == (Dec::Ok { v: self.6.gv(), n: e6.len(), t: t7 }));
-                                        let w7 = w6.skip(e6.len() as int);
-                                        assert(w7 =~= q6);
-                                        self.7.truncated(t7, c7);
-                                        assert(w7 =~= e7.take(c7));
-                                        assert(dec_field::<T8>(w7, t7, false, false) is Err);
-                                    }
-                                }
-                            }
-                        }
-                    }
-                }
-            }
-        }
-    }
 }
+
+// TruncLaw for (T1, T2, T3, T4, T5, T6, T7, T8): not claimed (proof unstable under solver seeds)
